@@ -758,7 +758,9 @@ class ValidityProfile(FieldProfile):
             elif t == "region":
                 how = {"t": t, "lo": [rng.randrange(6) for _ in range(nd)], "w": [rng.randrange(6) for _ in range(nd)]}
             elif t == "pad":
-                how = {"t": t, "d": rng.randrange(nd), "lo": rng.randint(0, 2), "hi": rng.randint(0, 2), "mode": rng.choice(["constant", "wrap", "edge", "symmetric", "reflect"])}
+                how = {"t": t, "d": rng.randrange(nd), "lo": rng.randint(0, 2), "hi": rng.randint(0, 2), "mode": rng.choice(["constant", "constant", "wrap", "edge", "symmetric", "reflect"])}
+                if how["mode"] == "constant" and rng.random() < 0.5:
+                    how["cv"] = rng.choice([7.5, 1, 0, 0.0, -2])
             else:
                 # resample to a multiple or a divisor so that no new centre sits on an old face
                 # (halving an even count puts every new centre on an old face: there the data decides, see D.sel)
